@@ -73,9 +73,13 @@ LATITUDE (every use is counted in a ``lat_*`` counter):
     is only a placeholder: NO, or OK provided no moved inferior lands on an
     existing name.  RENAME of a name to one of its own inferiors: NO, or OK
     with the simultaneous substitution of the prefix.
- 9. Degenerate names (empty parts, '.', '..'; property C08 owns them) are
-    generated rarely; NO must leave everything unchanged, after an OK the
-    trace is not continued (``degenerate_accepted``), nothing is judged.
+ 9. The empty name and names made of delimiters only are generated rarely;
+    NO must leave everything unchanged, after an OK the trace is not
+    continued (``degenerate_accepted``).  Names with empty, '.' or '..'
+    levels are ordinary names: a server may refuse to create them (7), but
+    once created they exist under exactly that name.  CREATE of a name with
+    a trailing delimiter creates the name without it (RFC 3501 6.3.3,
+    ``create_trailing_delimiter``).
 
 Mechanism ids are structural (computed from the step and the difference):
 ``create-existing-not-refused``, ``delete-missing-not-refused[:noselect-
@@ -207,7 +211,16 @@ def ancestors(name: str) -> list[str]:
 
 
 def degenerate(name: str) -> bool:
-    return any(p in ('', '.', '..') for p in name.split(DELIM))
+    """The empty name and names made of delimiters only (latitude 9)."""
+    return not name.strip(DELIM)
+
+
+def create_target(name: str) -> str:
+    """RFC 3501 6.3.3: the name created is without the trailing hierarchy
+    delimiter."""
+    if name.endswith(DELIM) and not degenerate(name):
+        return name[:-len(DELIM)]
+    return name
 
 
 def first_is_inbox(name: str) -> bool:
@@ -224,6 +237,13 @@ def shape_suffix(name: str | None, lsub: bool = False) -> str:
         return ':newline-in-name'
     if lsub and name != name.rstrip():
         return ':trailing-whitespace'
+    parts = name.split(DELIM)
+    if '' in parts:
+        return ':empty-level-in-name'
+    if any(p in ('cur', 'new', 'tmp') for p in parts):
+        return ':maildir-directory-name'
+    if '.' in name:
+        return ':dot-in-name'
     return ''
 
 
@@ -286,7 +306,10 @@ WORDS = ['a', 'b', 'ab', 'bc', 'c', 'd', 'Work', 'Sent', 'x1', 'two words',
          'UPPER', 'mixedCase', 'z-9']
 SPECIAL_NAMES = ['a.c', 'abc', 'a+b', 'aab', 'x[1]', '(p)', 'a|b', 'q?',
                  '^s$', '{n}', 'a&b', '&', 'a.', '.hidden', 'w..w', '~', '#n',
-                 'NIL', 'nil']
+                 'NIL', 'nil', 'a.c/d', 'a/c', 'a.c.e', 'Work.Sent',
+                 'cur', 'new', 'tmp', 'new/x', 'Work/tmp', 'Work/cur/x',
+                 'Cur', 'cur.', 'dovecot-uidlist', 'subscriptions',
+                 'maildirfolder', 'Work/dovecot-uidlist']
 WILD_NAMES = ['a*b', '%x', 'w%/y*', '*', '%', 'a*', 'a%', 'st*r/p%ct', '**',
               'x/*', 'x/%']
 QUOTE_NAMES = ['q"x', 'b\\s', '"', '\\', 'a"/b\\', '\\"', 'q" x']
@@ -300,8 +323,12 @@ INBOX_NAMES = ['inbox', 'Inbox', 'Inbox/x', 'INBOX/sub', 'INBOX/sub/deep',
                '\uff29NBOX']
 EDGE_WS_NAMES = ['a ', ' a', 'a \t', 'sp ace ', 'a/b ', 'a /b', 'a ',
                  'w\x1f', 'a\x85']
-DEGENERATE_NAMES = ['', 'a//b', '/a', 'a/', '.', '..', 'a/../b', 'a/./b',
-                    '/', '//', 'a/b/', '../x']
+DEGENERATE_NAMES = ['', '/', '//']
+# ordinary names for the model (a server may refuse to create them); a
+# trailing delimiter is dropped by CREATE (RFC 3501 6.3.3)
+ODD_LEVEL_NAMES = ['a//b', '/a', 'a/', '.', '..', 'a/../b', 'a/./b',
+                   'a/b/', '../x', 'Work/', 'Work//', '/Work', 'Sent//x',
+                   'Work/Sent/', './x', 'x/.', 'x/..']
 UNI_NAMES = ['é', 'ü/中', '中文', '\U0001f600', 'a/\U00010348', 'é&é',
              '&AOk-', '\u202ex', 'x\ufeff', 'é/é/é/é']
 
@@ -334,17 +361,15 @@ def fresh_name(rng: random.Random, backend: str) -> str:
     elif r < 0.975:
         name = rng.choice(['L' * 200, 'M' * 241, 'x/' + 'N' * 120 + '/y',
                            'é' * 121, 'x\x00y', '\x00'])
+    elif r < 0.995:
+        return rng.choice(ODD_LEVEL_NAMES)
     else:
         return rng.choice(DEGENERATE_NAMES)
-    if backend == 'maildir' and not degenerate(name):
-        # latitude/assumption 8: '.' is the on-disk delimiter of '++'
-        name = name.replace('.', '_')
     if not degenerate(name):
         return name
     # accidental degenerate names from the random generators are repaired;
     # deliberate ones come from DEGENERATE_NAMES only
-    parts = [p if p not in ('', '.', '..') else 'p' for p in name.split(DELIM)]
-    return DELIM.join(parts)
+    return 'p' + name.replace(DELIM, '_')
 
 
 # -- the reference model ------------------------------------------------------
@@ -1111,8 +1136,6 @@ class Runner:
                 cand = rng.choice(self.used)
             else:
                 cand = fresh_name(rng, self.backend)
-            if self.backend == 'maildir':
-                cand = cand.replace('.', '_')
             if m.status(cand) == 'missing' and (
                     not degenerate(cand) or rng.random() < 0.1):
                 return cand
@@ -1135,21 +1158,9 @@ class Runner:
                 cand = e.swapcase()
             else:
                 cand = fresh_name(rng, self.backend)
-            if self.backend == 'maildir' and not degenerate(cand):
-                cand = cand.replace('.', '_')
-            if self.backend.startswith('maildir') and \
-                    self._ws_alias(cand):
-                continue
             if m.status(cand) != 'real':
                 return cand
         return 'new-%d' % rng.randrange(1000)
-
-    def _ws_alias(self, cand: str) -> bool:
-        """assumption 8: do not create two names that differ only by trailing
-        whitespace of the whole name (one subscriptions-file line)."""
-        s = cand.rstrip()
-        return any(n != cand and n.rstrip() == s
-                   for n in list(self.m.real) + self.used)
 
     def gen_op(self, i: int) -> list[Any]:
         """The next program step; input classes of *listed* findings are
@@ -1300,11 +1311,21 @@ class Runner:
         w = wire_name(name)
         truncated = False
         dcls = ':inbox-inferior' if first_is_inbox(name) and DELIM in name \
-            else ''
+            else ':control-file-name' if any(
+                p.startswith(('dovecot', 'subscriptions', 'maildirfolder'))
+                for p in name.split(DELIM)) else ''
         if kind == 'CREATE':
-            self._last_target = name
             r = await self.cmd(b'CREATE ' + w, dcls)
             ok = r.ok
+            if create_target(name) != name:
+                # the name created is without the trailing delimiter
+                ctx.count('create_trailing_delimiter')
+                name = create_target(name)
+                n = norm(name)
+                st = m.status(name)
+                if name not in self.used:
+                    self.used.append(name)
+            self._last_target = name
             if n == 'INBOX':
                 self.refusal_or(kind, ok, 'inbox-created-or-deleted',
                                 'CREATE %r answered OK' % name)
@@ -1629,14 +1650,11 @@ class C11(Check):
     assumptions = [
         "hierarchy delimiter is '/' on every backend (checked on every LIST "
         'response)',
-        "maildir '++': no '.' inside generated names ('.' is the on-disk "
-        "hierarchy delimiter there, so 'a.b' and 'a/b' are one folder)",
-        'maildir: no two names of one program differ only by trailing '
-        'whitespace (one line of the subscriptions file); a single name with '
-        'trailing whitespace IS generated',
-        'names that leave the store / degenerate hierarchies (empty parts, '
-        "'.', '..') belong to C08: generated rarely, only NO-and-unchanged is "
-        'checked, a trace is not continued after such a name was accepted',
+        'the empty name and names made of delimiters only: generated rarely, '
+        'only NO-and-unchanged is checked, a trace is not continued after '
+        "such a name was accepted; names with empty, '.' or '..' levels, "
+        "dots (maildir '++'), maildir directory and control-file names "
+        '(fs) are ordinary names that a server may refuse to create',
         'a namespace command under test that gets no tagged answer (BYE '
         '[SERVERBUG], close) is a violation (command-kills-connection:*); a '
         'death during an observation command (STATUS/EXAMINE/FETCH dump) '
